@@ -490,6 +490,14 @@ def run(ctx):
                             if isinstance(e, ast.IfExp):
                                 return leaves(e.body, depth + 1) + leaves(e.orelse, depth + 1)
                             if isinstance(e, ast.Name) and depth < 6:
+                                # `sock, verified = _ssl_wrap_socket_and_match_hostname(...)`: the element bound to the is_verified field
+                                for a_ in astq.walk_fn(f.node):
+                                    if isinstance(a_, ast.Assign) and isinstance(a_.targets[0], ast.Tuple) and isinstance(a_.value, ast.Call) \
+                                            and astq.call_text(a_.value) == "_ssl_wrap_socket_and_match_hostname":
+                                        flds = m.returned_namedtuple_fields(WRAP) or []
+                                        for i_, t_ in enumerate(a_.targets[0].elts):
+                                            if isinstance(t_, ast.Name) and t_.id == e.id and i_ < len(flds) and flds[i_] == "is_verified":
+                                                return [("result", e)]
                                 srcs = astq.assigned_values(f.node, e.id)
                                 out = []
                                 for x in srcs:
